@@ -1,7 +1,8 @@
 ------------------------------ MODULE LabelSrc ------------------------------
 (* Model of schedule_sources/label_based.py: get_schedules() filters the     *)
 (* live task.labels["schedule"] lists of own-broker tasks; post_send() of a   *)
-(* time-only schedule pops the FIRST entry of that task with an equal time.   *)
+(* time-only schedule pops the entry that was sent (recognised by the id      *)
+(* get_schedules() stored in it; several entries may share a time).           *)
 EXTENDS LblProps
 CONSTANTS Cfgs, MaxOps, AllowedViol
 VARIABLES cfg, ent, nops, out, obs, viol
@@ -18,10 +19,12 @@ Fire(task, pos) ==
   /\ task \in DOMAIN ent /\ cfg.tasks[task].own
   /\ LET mine == SelectSeq(Expected(cfg, ent), LAMBDA x : x.task = task) IN
      /\ mine # <<>>
-     /\ LET s == mine[((pos - 1) % Len(mine)) + 1]
-            idx == {j \in DOMAIN ent[task] : ent[task][j].t = s.t /\ ent[task][j].k \in {"time", "both"}}
-            first == CHOOSE j \in idx : \A q \in idx : j <= q
-        IN /\ ent' = IF s.k = "time" /\ idx # {} THEN [ent EXCEPT ![task] = DropAt(@, first)] ELSE ent
+     /\ LET n == ((pos - 1) % Len(mine)) + 1
+            s == mine[n]
+            (* the entry that fired: the n-th listable entry of the task (recognised by its schedule id in the code) *)
+            listable == SelectSeq([j \in 1..Len(ent[task]) |-> j], LAMBDA j : Listable(ent[task][j]))
+            fired == listable[n]
+        IN /\ ent' = IF s.k = "time" THEN [ent EXCEPT ![task] = DropAt(@, fired)] ELSE ent
            /\ Emit(<<[E0 EXCEPT !.e = "fire", !.task = task, !.k = s.k, !.t = s.t, !.a = s.a],
                      [E0 EXCEPT !.e = "kick", !.task = task, !.a = s.a]>>)
   /\ nops' = nops + 1 /\ UNCHANGED cfg
